@@ -2,6 +2,7 @@
   C16  The Oracle-style date always holds whole seconds, flooring sub-second input.
 -/
 import SqlDt.Lemmas.Div
+import SqlDt.Lemmas.FloatUse
 namespace SqlDt.C16
 open SqlDt Gen
 
@@ -137,6 +138,12 @@ theorem tryFromUsecs_spec (u : Int) :
   · have h' : ¬ (-62135596800000000 ≤ u ∧ u ≤ 253402300799999999 ∧ u % 1000000 = 0) :=
       fun x => h ((isValidDate_iff u).2 x)
     rw [if_neg h, if_neg h']
+
+/-- The difference of two Oracle-style dates is their exact distance in days, correctly rounded to a double ONCE:
+    the microsecond difference converts to `f64` exactly (a multiple of 10^6 below 2^59), only the division rounds. -/
+theorem subDate_correctly_rounded (a b : Int) (ha : OracleDate.isValidDate a) (hb : OracleDate.isValidDate b) (hne : a ≠ b) :
+    OracleDate.subDate a b = F64.round (decide (a - b < 0)) (a - b).natAbs 86400000000 :=
+  Lemmas.OracleDate.subDate_eq a b ha hb hne
 
 /-- The maximum is 9999-12-31 23:59:59. -/
 theorem MAX_eq : OracleDate.MAX = 253402300799000000 := by decide
